@@ -36,14 +36,14 @@ CONSTANTS
                    \*          FALSE = probe: reset only after the refresh returned (the branch still looks parked meanwhile)
 
 \* The configuration of the call: a *variable that never changes* (cf' = cf), so that one TLC run can validate traces of
-\* many differently configured calls.  cf = [script, maxc, mins, tolc, tolp, tfail]
+\* many differently configured calls.  cf = [script, maxc, mins, tolc, tolp, tfail, lag, pre]
 \*   script[i] : sequence of atoms; "step" (a durable step: START, function, SUCCEED), then one of "ok" "fail" "susp" "tsusp" "bte";
 \*               after "tsusp" the script continues when the branch is resubmitted.  Retrying steps: "sfail" (START, function
 \*               raises, RETRY recorded, the branch parks on the retry timer), "sretry" (the attempt found READY after the
 \*               resubmission: no START, function, SUCCEED), "sfinal" (START, function raises, FAIL recorded); "sretryfail" /
 \*               "sretryfinal": a READY attempt whose function raises again (RETRY and park / FAIL)
 \*   maxc : max_concurrency (0 = None); mins : min_successful (0 = None); tolc : tolerated_failure_count (99 = None);
-\*   tolp : tolerated_failure_percentage (999 = None); tfail : BOOLEAN, the timer thread's refresh checkpoint may fail
+\*   tolp : tolerated_failure_percentage (999 = None); tfail : BOOLEAN, the timer thread's refresh checkpoint may fail; lag : BOOLEAN, the backend fires timers late (BodyRepark)
 \*   pre  : sequence of the branches whose context already exists when the call starts (a re-invocation: the branch is re-entered without a
 \*          new START, so this invocation's parent/child registry never hears of its context)
 VARIABLE cf
@@ -339,8 +339,17 @@ BodyPipelineFailed(i) ==
   /\ cf.tfail /\ wph[i] = "run" /\ i \notin chk /\ chk' = chk /\ chkLate' = chkLate
   /\ End(i, "bte", late, known)
 
+\* the backend fires its timers late (cf.lag: its own latency, or a local clock that runs ahead): a branch resubmitted by the local
+\* timer finds the operation it parked on unchanged in the refreshed state (PENDING step / STARTED wait) and parks again at once,
+\* without any update; the position in the script does not move
+AfterParked(i) == bpos[i] > 1 /\ bpos[i] - 1 <= Len(Script[i]) /\ Script[i][bpos[i] - 1] \in {"tsusp", "sfail", "sretryfail"}
+BodyRepark(i) ==
+  /\ cf.lag /\ wph[i] = "run" /\ i \notin chk /\ chk' = chk /\ chkLate' = chkLate
+  /\ sub[i] = "atom" /\ AfterParked(i)
+  /\ End(i, "tsusp", late, known)
+
 BodyStep(i) ==
-  /\ (BodyCheck(i) \/ BodyPut(i) \/ BodyOther(i) \/ BodyPipelineFailed(i))
+  /\ (BodyCheck(i) \/ BodyPut(i) \/ BodyOther(i) \/ BodyPipelineFailed(i) \/ BodyRepark(i))
   /\ UNCHANGED <<bst, scanIdx, scanT, scanI, succ, fail, event, suspExc, timers, mpc, mi, pdone, parentSent, items, reason,
                  maxActive, decidedAt, outcomeAt, result>>
 
